@@ -17,6 +17,7 @@ import (
 	"context"
 	"fmt"
 	"math/big"
+	"strconv"
 	"strings"
 
 	"github.com/attestantio/go-block-relay/services/blockauctioneer"
@@ -33,6 +34,9 @@ import (
 	"go.opentelemetry.io/otel/attribute"
 	"go.opentelemetry.io/otel/trace"
 )
+
+// builderBidsRetentionSlots is the number of slots for which a cached builder bid is kept.
+const builderBidsRetentionSlots = 64
 
 // AuctionBlock obtains the best available use of the block space.
 func (s *Service) AuctionBlock(ctx context.Context,
@@ -123,6 +127,13 @@ func (s *Service) cacheBid(_ context.Context,
 		s.builderBidsCache[key] = make(map[string]*builderspec.VersionedSignedBuilderBid)
 	}
 	s.builderBidsCache[key][subKey] = bid
+	// A bid is only asked for during its own slot; drop those of older slots so that they do not accumulate.
+	for cachedKey := range s.builderBidsCache {
+		cachedSlot, err := strconv.ParseUint(cachedKey, 10, 64)
+		if err != nil || cachedSlot+builderBidsRetentionSlots < uint64(slot) {
+			delete(s.builderBidsCache, cachedKey)
+		}
+	}
 	s.builderBidsCacheMu.Unlock()
 }
 
